@@ -18,3 +18,8 @@ func VerifRecordedBookOptions(header *options.HeaderOption, bookOpts *tableaupb.
 	p.mergeBookOptions(bookOpts)
 	return p.wb.Options
 }
+
+// VerifPrepareOutdir is prepareOutdir.
+func VerifPrepareOutdir(outdir string, importFiles []string, delExisted bool) error {
+	return prepareOutdir(outdir, importFiles, delExisted)
+}
